@@ -93,6 +93,14 @@ class Fn:
         for nm, pl in raw.get("dbg", []):
             if not pl[1]:
                 self.dbg.setdefault(pl[0], nm)
+        # renamed local variables: when the function's MIR skeleton (locals, their types, block count) is exactly the pinned
+        # tree's, a local keeps the debug name the rule base knows -- a rename of locals changes nothing else
+        ent = (getattr(prog, "anchor_table", None) or {}).get(self.path)
+        if ent and len(ent) >= 6 and self.kind != "Closure":
+            import hashlib
+            shape = "%d:%d:%s" % (len(self.locals), len(self.blocks), hashlib.sha1("|".join(self.locals).encode()).hexdigest()[:12])
+            if shape == ent[4] and {str(k): v for k, v in self.dbg.items()} != ent[5] and set(str(k) for k in self.dbg) == set(ent[5]):
+                self.dbg = {int(k): v for k, v in ent[5].items()}
 
     def __repr__(self):
         return "Fn(%s)" % self.path
@@ -516,6 +524,13 @@ class Program:
     def __init__(self, facts, cfg="K0"):
         self.cfg = cfg
         self.raw = facts
+        import json, os
+        if Program._ANCHORS is None:
+            try:
+                Program._ANCHORS = json.load(open(os.path.join(os.path.dirname(os.path.abspath(__file__)), "anchors.json")))
+            except Exception:
+                Program._ANCHORS = {}
+        self.anchor_table = Program._ANCHORS.get(cfg) or {}
         self.fns = {}
         self.by_path = defaultdict(list)
         for f in facts["fns"]:
